@@ -243,15 +243,8 @@ class CoxeterGroup:
 
         # a degenerate form has no diagonalizing change of basis: diagonalize_form
         # then returns a singular W, and Winv is not its inverse
-        # (the tolerance follows the precision of the Cartan matrix: W may
-        # be stored in a wider type than the one it was computed in)
-        try:
-            tolerance = max(1e-10, 1e4 * np.finfo(np.asarray(cartan_matrix).dtype).eps)
-        except ValueError:
-            tolerance = 1e-10
-
-        defect = np.abs(Winv @ W - np.identity(num_gens)).astype('float64')
-        if not (defect <= tolerance).all():
+        # (diagonalize_form marks a null direction by a zero column of W)
+        if not np.abs(W).astype('float64').any(axis=-2).all():
             raise GeometryError(
                 "cannot diagonalize: the bilinear form determined by the"
                 " Cartan matrix is degenerate"
